@@ -223,7 +223,11 @@ func (s *connectionWorker) serve(ctx context.Context, session *sessions.Session)
 }
 
 func (s *manager) shutdownSession(ctx context.Context, session *sessions.Session) {
-	s.local.Delete(session.ID())
+	defer session.Close()
+	if s.local.Delete(session.ID()) == nil {
+		// Session has already been shut down.
+		return
+	}
 	topics := session.GetTopics()
 	for idx := range topics {
 		s.state.Subscriptions().Delete(session.ID(), topics[idx])
